@@ -264,6 +264,12 @@ fn main() {
                 }
             }
         }
+        Some("filechild") => {
+            // filechild <svg|png> <path> <small|large>: one to_file call on exactly that path (used under a file-size limit)
+            let case = format!("file {} direct {} {}", args[2], args[3], args[4]);
+            let r = catch_unwind(AssertUnwindSafe(|| run_case(&case)));
+            println!("{}", r.unwrap_or_else(|_| "PANIC".to_string()));
+        }
         Some("tables") => tables(),
         _ => {
             eprintln!("usage: fqh run <cases> | fqh tables");
